@@ -36,11 +36,15 @@ def _phase(name):
 
 MANIFEST = dict(
     category="proof",
-    text="Lean 4, 26 theorems, none _partial, over Model/Scope.lean and three regenerated tables. "
+    text="Lean 4, 27 theorems, none _partial, over Model/Scope.lean and three regenerated tables. "
          "(1) Lexical scoping, for all trees, positions, keys and values: lookup = nearest enclosing definition; the heap model of "
          "util.Scope (with clone/reparent/cycles) agrees with the chain model; writing k:v on a container (namespace, class, block, at any "
          "path) and writing it on every contained function without a nearer definition give every function the same lookups while "
          "functions outside keep their chains literally (container_eq_members, container_eq_each_member, sibling_unaffected). "
+         "ClassNode.clone (class template instantiation: clone the class scope, clone every function and re-attach it through memoised "
+         "clones of its block scopes) is modelled on the heap; proved: it only appends scopes, keeps every existing local dictionary and "
+         "every existing parent link except that of the scope being re-attached (rehome_frame); that the re-attached chains are the "
+         "right ones is NOT proved, it is tied to the real ClassNode.clone by differential testing (chains compared as scope ids). "
          "(2) A block without options is transparent at any position, and a block appends to its parent's list in order. "
          "(3) Parser.attribute on +k, +k(balanced tokens), +k=scalar equals attrs.update(entries) for every attribute list and every "
          "split between declaration text and attrs/fattrs; the later entry wins. "
@@ -53,15 +57,16 @@ MANIFEST = dict(
          "function-scoped option (and no explicitly read function-scoped format field) is read through a library-level owner expression "
          "(allow list empty), and no value read from a function-scoped option/format field is stored in an attribute of a pass or wrapper "
          "object (cached across declarations). "
-         "Ties on every run through the compiled driver drv_scope: util.Scope operation programs, real node construction "
+         "Ties on every run through the compiled driver drv_scope: util.Scope operation programs incl. the real ClassNode.clone, real node construction "
          "(create_library_from_dictionary, blocks nested in blocks/classes/namespaces) vs build/views, Parser.attribute on real token "
          "streams, the real main_with_args merge; node construction must hand the user's description back unchanged (the model's "
          "constructors are pure); the Scope read trace validates the static read table and the function-scoped baseline. "
          "Implementation-only oracle: byte comparison of complete output directories for pairs of equivalent descriptions (option/format "
-         "and wrap_* on container vs members at every placement, locality (a setting on one namespace leaves the sibling's files as in "
+         "and wrap_* on container vs members at every placement (libraries always hold a class template with a block and a class with cpp_if), locality (a setting on one namespace leaves the sibling's files as in "
          "the base run and gives its own files as with the setting on the library; integer options included), one mapping shared through "
          "YAML aliases vs copies, sibling, empty block, every accepted attribute name inline vs "
-         "attrs/fattrs on functions/methods/constructors/arguments, generated option values YAML vs real command line, --path with stale "
+         "attrs/fattrs on functions/methods/constructors/arguments, generated option values YAML vs real command line incl. the case where the command line overrides other values and "
+         "the other language written in the file, --path with stale "
          "look-alike files, create_wrapper once and in sequences vs fresh command-line runs).",
     design="3 C14",
     note="Trusted: Lean kernel (axioms propext, Classical.choice, Quot.sound only); the hand-written model, validated on generated "
@@ -77,7 +82,8 @@ MANIFEST = dict(
          "function_suffix on a container of overloaded functions is replaced by the automatic _0/_1 numbering ('set unless local', the "
          "same rule as eval_template), because an inherited suffix would name all overloads alike; it is replayed from corpus/c14.txt "
          "and reported as KNOWN-FINDING. Five defects found by this check were repaired in /repo (create_wrapper fields, block in a "
-         "class, constructors in a block, attrs with fortran_generic, block options in a class template).",
+         "class, constructors in a block, attrs with fortran_generic, block options in a class template, cpp_if of a class for functions "
+         "in a block).",
     technique="Lean 4 proof by induction over chains/trees/token lists + regenerated tables (decide) + differential correspondence through a "
               "compiled driver + run-time read tracing + metamorphic byte comparison of outputs",
 )
@@ -87,6 +93,7 @@ THEOREMS = {
         "Shroud.Scope.lookup_nearest",
         "Shroud.Scope.lookup_none_iff",
         "Shroud.Scope.look_found_iff_chain",
+        "Shroud.Scope.rehome_frame",
         "Shroud.Scope.container_eq_members",
         "Shroud.Scope.container_eq_each_member",
         "Shroud.Scope.sibling_unaffected",
